@@ -64,8 +64,8 @@ func Run(run *vh.Run) {
 	run.Rule = "Generated from the harness PRNG: secp256k1 scalars (plain, leading-zero bytes, tiny, n-k) and messages of 0..2048 bytes; " +
 		"BIP-39 mnemonics of 12/15/18/21/24 words from PRNG entropy, passphrases (empty/ASCII/NFKD-stable Unicode), paths of depth 1..8 with hardened and " +
 		"non-hardened components (small, BIP-44, 2^31-1, random) plus paths found by a bounded deterministic search (reference implementation only) whose " +
-		"intermediate key has one or two leading zero bytes; single-signer sign documents (amino StdSignBytes and protobuf SignDoc) with 1..3 messages of " +
-		"26 message types and typed field values; staking-precompile typed messages. Every sample gets its positive check and single-field perturbations. " +
+		"intermediate key has one or two leading zero bytes; single-signer sign documents (amino StdSignBytes, protobuf SignDoc, and the application's own " +
+		"amino-JSON sign-mode handler where it renders differently) with 1..3 messages of the listed message kinds and typed field values; staking-precompile typed messages. Every sample gets its positive check and single-field perturbations. " +
 		"Non-trivial case keys = distinct (sub-check, perturbation class incl. message type and field, message-length bucket / key shape / path shape and " +
 		"leading-zero position) for which the oracle really compared two outcomes (a perturbed document the encoder rejected is counted as rejected, not as compared)."
 	run.Assumptions = append(run.Assumptions,
